@@ -51,6 +51,36 @@ def trace_one(run, exe, kind, path, size, pre, tag):
     return {"opens": opens, "writes": writes, "other": other, "after": after, "stdout": p.stdout}
 
 
+def seq_one(run, exe, size, closed, tag):
+    """four records from ONE process with a rotation and a descriptor-number reuse in between: every record must be a whole line in the
+    file the path names at that moment, written through a descriptor of its own that is gone afterwards"""
+    path = os.path.join(run.scratch, "c17-seq-%s.log" % tag)
+    for sfx in ("", ".1", ".app"):
+        if os.path.exists(path + sfx):
+            os.unlink(path + sfx)
+    open(path, "wb").write(b"OLD\n")
+    p = subprocess.run([exe, "seq", path, str(size), "1" if closed else "0"], stdout=subprocess.PIPE, stderr=subprocess.PIPE, text=True, timeout=120,
+                       stdin=subprocess.DEVNULL)
+    rd = lambda f: open(f, "rb").read() if os.path.exists(f) else None
+    got = {"path": rd(path), "rotated": rd(path + ".1"), "app": rd(path + ".app")}
+    rec = lambda k: bytes([48 + k]) * size + b"\n"
+    want = {"path": rec(2) + rec(3) + rec(4), "rotated": b"OLD\n" + rec(1), "app": b"APPDATA\n"}
+    why = None
+    if p.returncode != 0:
+        why = "writer process ended with status %d" % p.returncode
+    for k in ("rotated", "path", "app"):
+        if not why and got[k] != want[k]:
+            why = "%s file holds %s bytes, expected %d (records of one process after a rotation / descriptor reuse%s)" % (
+                k, None if got[k] is None else len(got[k]), len(want[k]), ", stdin closed" if closed else "")
+    if not why:
+        for line in p.stdout.splitlines():
+            f = line.split()
+            if len(f) == 6 and f[0] == "rec" and (int(f[3]) != size + 1 or f[5] != "0"):
+                why = "record %s: output returned %s (record is %d bytes), %s descriptor(s) left open afterwards" % (f[1], f[3], size + 1, f[5])
+                break
+    return why, {"stdout": p.stdout[-400:], "lengths": {k: None if v is None else len(v) for k, v in got.items()}}
+
+
 def check(run):
     run.snapshot()
     oc = tr_output(run)
@@ -100,6 +130,14 @@ def check(run):
         if why:
             run.violation("syscalls:%s" % why.split(" ")[0], "spec_violation", "%s (output %s, record size %d, pre-existing content %s)" % (why, kind, sz, None if pre is None else len(pre)),
                           {"failing_input": {"kind": kind, "size": sz, "pre_len": None if pre is None else len(pre)}, "observed": {"opens": t["opens"][:3], "writes": t["writes"][:6]}})
+    # ---- several records of one process, rotation and descriptor reuse in between, with and without descriptor 0 open
+    for si, (sz, closed) in enumerate([(1, False), (100, True), (5000, False), (70000, True)]):
+        why, obs = seq_one(run, exe, sz, closed, str(si))
+        nchk += 4
+        distinct.add(("seq", sz, closed))
+        if why:
+            run.violation("seq:%s" % why.split(" ")[0], "spec_violation", why + " (record size %d)" % sz,
+                          {"failing_input": {"seq": True, "size": sz, "stdin_closed": closed}, "observed": obs})
     # ---- concurrent stress as search
     stress = [(2, 200, 100), (4, 100, 5000), (8, 60, 20000), (16, 30, 70000)] if run.tier == "quick" else [(2, 2000, 100), (4, 500, 5000), (8, 300, 20000), (16, 200, 70000), (16, 100, 300000)]
     nst = 0
@@ -157,6 +195,12 @@ def replay(run, path):
         print("REPRODUCED" if bad else "not reproduced: one append-mode open, one write of the whole record")
         run.cleanup()
         return 1 if bad else 0
+    if fi.get("seq"):
+        why, obs = seq_one(run, exe, fi["size"], fi["stdin_closed"], "replay")
+        print(obs)
+        print("REPRODUCED: " + why if why else "not reproduced: every record whole, in the file the path names at that moment, no descriptor left")
+        run.cleanup()
+        return 1 if why else 0
     if "writers" in fi:
         print("stress finding (writers=%s records=%s size=%s): re-run ./check C17 quick" % (fi["writers"], fi["records"], fi["size"]))
     run.cleanup()
